@@ -21,7 +21,7 @@ def profile(st):
 
 CHECK = SchedulerSwapCheck(
     profile=profile,
-    tiers={'quick': 800, 'thorough': 80_000},
+    tiers={'quick': 800, 'thorough': 50_000},
     rule=('one seed -> one single-symbol session (trading tf 1m-1h, optional larger data routes, spot and futures, exits placed '
           '40-600 ticks away) executed under the normal and under the fast simulator in two forked grandchildren with identical keyed '
           'decisions. The precondition is evaluated on the NORMAL run (at most one LIMIT/STOP fill per aligned trading-candle span, no '
